@@ -3,5 +3,5 @@ From PP Require Import Hash.MurmurDefs.
 Extraction "model.ml" Z.of_N Z.to_N Z.of_nat Z.to_nat N.of_nat N.to_nat N.add N.mul Z.opp
   murmur64a murmur64a_mem murmur_native hash_fold shard_hash shard_index dedupe_line_key dedupe_field_key cache_key
   subtract_insert_key subtract_lookup_key commoncrawl_dedupe_key case_key_train case_key_apply
-  mmhsum mmhsum_with order_independent_hash murmur_ref
+  mmhsum mmhsum_with order_independent_hash murmur_ref murmur64b murmur_native_for
   murmur_m murmur_r murmur_tail_cases shard_seed native_64b_pointer_size default_seed_64a.
